@@ -326,3 +326,43 @@ seed("c05-first-pivot-guard-removed", "C05", TR, '        if self.main[0] == T::
 seed("c05-stencil-last-row", "C05", TR, "        result[ self.n - 1 ] = self.sub[ self.n - 2 ] * vec[ self.n - 2 ]  ", "        result[ self.n - 1 ] = self.sub[ self.n - 2 ] * vec[ self.n - 1 ]  ", "stencil")
 seed("c05-with-vecs-guard", "C05", TR, "if sub.len() != n - 1 || sup.len() != n - 1 { ", "if sub.len() != n - 1 || sup.len() != n { ", "invariant")
 seed("c05-convert-last-main", "C05", TR, "dense[(self.n - 1, self.n - 1)] = self.main[self.n - 1];", "dense[(self.n - 1, self.n - 1)] = self.main[self.n - 2];", "convert")
+
+# ---------------------------------------------------------------- C06 / C07
+SP = "src/sparse.rs"
+seed("c06-triplets-misaligned", "C06", SP, "triplets.push( ( self.row_index[ k ], j, self.val[ k ] ) );", "triplets.push( ( self.row_index[ k ], j, self.val[ j ] ) );", "csc-walk/to_triplets")
+seed("c06-dense-walk-short", "C06", SP, """            for k in self.col_start[ j ]..self.col_start[ j + 1 ] {
+                dense[( self.row_index[ k ], j )] = self.val[ k ];""", """            for k in self.col_start[ j ]..self.col_start[ j ] + 1 {
+                dense[( self.row_index[ k ], j )] = self.val[ k ];""", "csc-walk/to_dense")
+seed("c06-dense-roles-swapped", "C06", SP, "dense[( self.row_index[ k ], j )] = self.val[ k ];", "dense[( j, self.row_index[ k ] )] = self.val[ k ];", "role/to_dense")
+seed("c06-prefix-inclusive", "C06", SP, """            let ck = col_start[ k ];
+            col_start[ k ] = sum;
+            sum += ck;""", """            let ck = col_start[ k ];
+            sum += ck;
+            col_start[ k ] = sum;""", "col-start")
+seed("c06-colstart-no-total", "C06", SP, "        col_start[ self.cols ] = sum;\n", "", "col-start")
+seed("c06-triplet-push-row-as-col", "C06", SP, "            col_index.push( triplet.1 );", "            col_index.push( triplet.0 );", "lengths/from_triplets")
+seed("c06-sort-by-row", "C06", SP, "triplets.sort_by_key( |triplet| triplet.1 );", "triplets.sort_by_key( |triplet| triplet.0 );", "lengths/from_triplets-sort")
+seed("c06-insert-overwrite-wrong-k", "C06", SP, """            if ( self.row_index[ k ] == row ) && ( col_index[ k ] == col ) {
+                self.val[ k ] = value;""", """            if ( self.row_index[ k ] == row ) && ( col_index[ k ] == col ) {
+                self.val[ 0 ] = value;""", "lookup/insert")
+seed("c06-get-test-row-only", "C06", SP, """            if ( self.row_index[ k ] == row ) && ( col_index[ k ] == col ) {
+                return Some( self.val[ k ] );""", """            if ( self.row_index[ k ] == row ) && ( col_index[ k ] >= col ) {
+                return Some( self.val[ k ] );""", "lookup/get")
+seed("c06-insert-rebuild-swapped-shape", "C06", SP, "*self = Self::from_triplets( self.rows, self.cols, &mut triplets );", "*self = Self::from_triplets( self.cols, self.rows, &mut triplets );", "lookup/insert")
+seed("c06-colindex-gap", "C06", SP, "gaps[ k ] = self.col_start[ k + 1 ] - self.col_start[ k ];", "gaps[ k ] = self.col_start[ k + 1 ] - self.col_start[ 0 ];", "col-index")
+seed("c06-transpose-alloc", "C06", SP, "let mut at = Sparse::new_nonzero( self.cols, self.rows, self.nonzero );", "let mut at = Sparse::new_nonzero( self.rows, self.cols, self.nonzero );", "transpose-shape")
+seed("c06-transpose-scatter-row", "C06", SP, "                at.row_index[ index ] = i;", "                at.row_index[ index ] = k;", "transpose-shape")
+seed("c06-newnonzero-colstart-len", "C06", SP, "            col_start: vec![ 0; cols + 1 ],\n        }\n    } ", "            col_start: vec![ 0; cols ],\n        }\n    } ", "lengths/new_nonzero")
+seed("c07-multiply-x-by-row", "C07", SP, "                result[ self.row_index[ k ] ] += self.val[ k ] * xj;", "                result[ self.row_index[ k ] ] += self.val[ k ] * x[ self.row_index[ k ] ];", "scatter")
+seed("c07-tmultiply-result-len", "C07", SP, "let mut result = Vector::create( vec![ T::zero(); self.cols ] );", "let mut result = Vector::create( vec![ T::zero(); self.rows ] );", "gather")
+seed("c07-tmultiply-minus", "C07", SP, "                result[ i ] += self.val[ k ] * x[ self.row_index[ k ] ];", "                result[ i ] -= self.val[ k ] * x[ self.row_index[ k ] ];", "gather")
+seed("c07-scale-range", "C07", SP, """        for k in 0..self.nonzero {
+            self.val[ k ] *= *value;""", """        for k in 1..self.nonzero {
+            self.val[ k ] *= *value;""", "scale")
+seed("c07-multiply-walk-from-next", "C07", SP, """            let xj = x[ j ];
+            for k in self.col_start[ j ]..self.col_start[ j + 1 ] {""", """            let xj = x[ j ];
+            for k in self.col_start[ j ] + 1..self.col_start[ j + 1 ] {""", "csc-walk/multiply")
+seed("c07-transpose-val-misaligned", "C07", SP, "                at.val[ index ] = self.val[ j ];", "                at.val[ index ] = self.val[ index ];", "csc-walk/transpose")
+seed("c07-multiply-guard-rows", "C07", SP, """        if self.cols != x.size() { 
+            panic!( "Sparse matrix multiply""", """        if self.rows != x.size() { 
+            panic!( "Sparse matrix multiply""", "scatter")
